@@ -460,7 +460,7 @@ func (r *R) Gen(ctx sdk.Context, g *hx.Rng) string {
 	user := func() string { return hx.AccName(g.Intn(4)) }
 	timeLock := func(lo, hi int64) int64 {
 		// pile contracts onto an expiry bucket that already exists
-		if len(open) > 0 && g.Chance(1, 3) {
+		if len(open) > 0 && g.Chance(1, 2) {
 			tl := int64(open[g.Intn(len(open))].ExpirationHeight) - height
 			if tl >= lo && tl <= hi {
 				return tl
@@ -515,6 +515,13 @@ func (r *R) Gen(ctx sdk.Context, g *hx.Rng) string {
 			kind = 0
 		}
 	}
+	if kind == 1 || kind == 2 { // supply records are created by the first block after the asset was added
+		for _, a := range assets {
+			if _, ok := k.GetAssetSupply(ctx, a.Denom); !ok && g.Chance(9, 10) {
+				kind = 4
+			}
+		}
+	}
 	if kind == 2 { // an outgoing transfer needs available current supply: build it up first
 		any := false
 		for _, a := range assets {
@@ -533,7 +540,13 @@ func (r *R) Gen(ctx sdk.Context, g *hx.Rng) string {
 			return create(r.sym(h.Sender), r.sym(h.To), showCoins(h.Amount), strings.ToLower(h.HashLock), int64(h.Timestamp)+g.Range(0, 1), timeLock(50, 34560), g.Chance(1, 5))
 		}
 		sender := user()
-		if g.Chance(1, 10) {
+		for i := 0; i < nAcc; i++ { // prefer an account that holds something
+			if !r.env.App.BankKeeper.GetAllBalances(ctx, r.addr(sender)).IsZero() {
+				break
+			}
+			sender = hx.AccName(i)
+		}
+		if g.Chance(1, 12) {
 			sender = acc()
 		}
 		to := acc()
@@ -549,7 +562,7 @@ func (r *R) Gen(ctx sdk.Context, g *hx.Rng) string {
 		var cs []string
 		pick := func(d string, bal sdkmath.Int) {
 			var amt sdkmath.Int
-			switch g.Pick(8, 3, 2, 2, 1) {
+			switch g.Pick(12, 3, 1, 2, 1) {
 			case 0:
 				if bal.IsPositive() && bal.IsInt64() {
 					amt = sdkmath.NewInt(g.Range(1, bal.Int64()))
@@ -609,12 +622,15 @@ func (r *R) Gen(ctx sdk.Context, g *hx.Rng) string {
 		return create(sender, to, coins, lock, ts, timeLock(50, 34560), false)
 	case 1: // incoming cross-chain transfer (deputy -> user)
 		a := assets[g.Intn(len(assets))]
+		for i := 0; i < 3 && !a.Active && g.Chance(9, 10); i++ { // mostly an active asset
+			a = assets[g.Intn(len(assets))]
+		}
 		sender := r.sym(a.DeputyAddress)
-		if g.Chance(1, 10) {
+		if g.Chance(1, 20) {
 			sender = acc()
 		}
 		to := user()
-		switch g.Pick(16, 1, 1, 1) {
+		switch g.Pick(24, 1, 1, 1) {
 		case 1:
 			to = sender
 		case 2:
@@ -631,8 +647,12 @@ func (r *R) Gen(ctx sdk.Context, g *hx.Rng) string {
 		if !sup.TimeLimitedCurrentSupply.Amount.IsNil() {
 			tlRoom -= sup.TimeLimitedCurrentSupply.Amount.Int64() + sup.IncomingSupply.Amount.Int64()
 		}
+		if (room <= 0 || a.SupplyLimit.TimeLimited && tlRoom <= 0) && g.Chance(2, 3) {
+			// no room left: let the window elapse (or just move on) instead of probing the full limit again
+			return "htlc begin_block " + hx.KV("h", height+1, "t", ctx.BlockTime().UnixNano()+int64(a.SupplyLimit.TimePeriod)+g.Range(-1, 1)*1000000000)
+		}
 		var amt int64
-		switch g.Pick(8, 3, 3, 2, 2) {
+		switch g.Pick(14, 3, 3, 2, 2) {
 		case 0:
 			hi := room
 			if hi > 120 {
@@ -657,19 +677,19 @@ func (r *R) Gen(ctx sdk.Context, g *hx.Rng) string {
 		return create(sender, to, fmt.Sprintf("%s*%d", d, amt), lockOf(g.Intn(nSecrets), ts), ts, timeLock(50, 34560), true)
 	case 2: // outgoing cross-chain transfer (user -> deputy)
 		a := assets[g.Intn(len(assets))]
-		for i := 0; i < 3; i++ { // prefer an asset with available supply
-			if sup, ok := k.GetAssetSupply(ctx, a.Denom); ok && sup.CurrentSupply.Amount.GT(sup.OutgoingSupply.Amount) {
+		for i := 0; i < 4; i++ { // prefer an active asset with available supply
+			if sup, ok := k.GetAssetSupply(ctx, a.Denom); ok && sup.CurrentSupply.Amount.GT(sup.OutgoingSupply.Amount) && (a.Active || g.Chance(1, 10)) {
 				break
 			}
 			a = assets[g.Intn(len(assets))]
 		}
 		sender := user()
 		// prefer a holder of the asset
-		for i := 0; i < 4; i++ {
+		for i := 0; i < nAcc; i++ {
 			if r.env.Bal(ctx, r.addr(sender), a.Denom).IsPositive() {
 				break
 			}
-			sender = user()
+			sender = hx.AccName(i)
 		}
 		to := r.sym(a.DeputyAddress)
 		if g.Chance(1, 12) {
@@ -682,7 +702,7 @@ func (r *R) Gen(ctx sdk.Context, g *hx.Rng) string {
 			avail = sup.CurrentSupply.Amount.Int64() - sup.OutgoingSupply.Amount.Int64()
 		}
 		var amt int64
-		switch g.Pick(6, 3, 3, 2, 1) {
+		switch g.Pick(10, 3, 3, 2, 1) {
 		case 0:
 			amt = g.Range(1, bal)
 		case 1:
